@@ -17,10 +17,12 @@ Tail2(s) == SubSeq(s, 2, Len(s))
 
 RECURSIVE Climb(_, _)
 Climb(scope, toks) == IF toks # <<>> /\ toks[1] = "_" /\ Len(scope) >= 2 THEN Climb(SubSeq(scope, 1, Len(scope) - 2), Tail2(toks)) ELSE <<scope, toks>>
-Target(cur, toks) ==
-  IF toks # <<>> /\ toks[1] = "root" THEN Tail2(toks)
+\* base: the board that the file the link is written in has become (<<>> for the main file; the importing board
+\* for an imported file): "root" names the root of the file, i.e. that board
+Target(cur, base, toks) ==
+  IF toks # <<>> /\ toks[1] = "root" THEN base \o Tail2(toks)
   ELSE LET c == Climb(cur, toks) IN c[1] \o c[2]
-Kept(T, cur, toks) == Target(cur, toks) \in T /\ Target(cur, toks) # cur
+Kept(T, cur, base, toks) == Target(cur, base, toks) \in T /\ Target(cur, base, toks) # cur
 
 \* ---- files (BoardPaths.tla, rule "escaped", over an explicit tree T of flat paths)
 Kids(T, p) == {q \in T : Len(q) = Len(p) + 2 /\ SubSeq(q, 1, Len(p)) = p}
@@ -43,16 +45,16 @@ Prog(e) ==
   /\ Chk(e.err = 0, "MACHINERY", "generated-board-tree-does-not-compile", <<e.msg, e.text>>)
   /\ (e.panic = 0 /\ e.err = 0) =>
        \A k \in 1..Len(e.links) : LET x == e.links[k] cur == e.boards[x.board] IN
-         /\ Chk(Kept(T, cur, x.toks) => x.stored = <<"root">> \o Target(cur, x.toks), "C35",
-                IF x.stored = <<>> THEN "link-to-an-existing-board-dropped" ELSE "stored-link-is-not-the-absolute-path-of-the-linked-board", <<cur, x.toks, x.stored, Target(cur, x.toks)>>)
-         /\ Chk(~Kept(T, cur, x.toks) => x.stored = <<>>, "C35",
-                IF Target(cur, x.toks) = cur THEN "link-to-the-board-itself-kept" ELSE "link-to-a-missing-board-kept", <<cur, x.toks, x.stored>>)
+         /\ Chk(Kept(T, cur, x.base, x.toks) => x.stored = <<"root">> \o Target(cur, x.base, x.toks), "C35",
+                IF x.stored = <<>> THEN "link-to-an-existing-board-dropped" ELSE "stored-link-is-not-the-absolute-path-of-the-linked-board", <<cur, x.toks, x.stored, Target(cur, x.base, x.toks)>>)
+         /\ Chk(~Kept(T, cur, x.base, x.toks) => x.stored = <<>>, "C35",
+                IF Target(cur, x.base, x.toks) = cur THEN "link-to-the-board-itself-kept" ELSE "link-to-a-missing-board-kept", <<cur, x.toks, x.stored>>)
          /\ (e.cli = 1 /\ Len(e.boards) > 1) =>
               /\ Chk(x.file = File(T, cur), "C35", "board-written-to-another-file-than-derived", <<cur, x.file, File(T, cur)>>)
-              /\ Kept(T, cur, x.toks) =>
-                   Chk(x.href = Rel(Front(File(T, cur)), File(T, Target(cur, x.toks))), "C35", "link-not-rewritten-to-the-relative-path-of-the-linked-boards-file",
-                       <<cur, x.toks, x.href, Rel(Front(File(T, cur)), File(T, Target(cur, x.toks)))>>)
-              /\ ~Kept(T, cur, x.toks) => Chk(x.href = <<>>, "C35", "dropped-link-present-in-the-output", <<cur, x.toks, x.href>>)
+              /\ Kept(T, cur, x.base, x.toks) =>
+                   Chk(x.href = Rel(Front(File(T, cur)), File(T, Target(cur, x.base, x.toks))), "C35", "link-not-rewritten-to-the-relative-path-of-the-linked-boards-file",
+                       <<cur, x.toks, x.href, Rel(Front(File(T, cur)), File(T, Target(cur, x.base, x.toks)))>>)
+              /\ ~Kept(T, cur, x.base, x.toks) => Chk(x.href = <<>>, "C35", "dropped-link-present-in-the-output", <<cur, x.toks, x.href>>)
 
 Init == l = 1 /\ tid = 0
 Next ==
